@@ -2,6 +2,7 @@ package main
 
 import (
 	"fmt"
+	"math"
 	"sort"
 	"strings"
 
@@ -285,6 +286,37 @@ func heightMapScenario(procs, spheres int) {
 		body:  run})
 }
 
+// heightMapCircleScenario: the same routine with an absolute expected value. Every random start inside a disc
+// projects to the disc's only medial-axis point, its centre, so whatever the random numbers and however the
+// iterations are divided among the workers, the filled map is that of the one sphere (centre, R). The grid is a
+// window strictly inside the disc, so every cell - the last ones of the last row included - has a positive
+// expected height R^2 - |x - centre|^2, and worker counts that do and do not divide the number of cells are used.
+func heightMapCircleScenario(procs, spheres, maxSize int, maxRadius float64) {
+	run := func() string {
+		hm := toolbox3d.NewHeightMap(model2d.XY(0, 0), model2d.XY(1, 0.75), maxSize)
+		shape := &model2d.Circle{Center: model2d.XY(0.25, 0.125), Radius: 2}
+		hm.AddSpheresSDF(shape, spheres, 1e-4, maxRadius)
+		for row := 0; row < hm.Rows; row++ {
+			for col := 0; col < hm.Cols; col++ {
+				c := hm.Min.Add(model2d.XY(float64(col)*hm.Delta, float64(row)*hm.Delta))
+				want := 4 - c.SquaredDist(shape.Center)
+				if maxRadius != 0 {
+					want = maxRadius * maxRadius // filled: inside the disc shrunk by maxRadius the height is capped
+				}
+				got := hm.Data[row*hm.Cols+col]
+				if !(math.Abs(got-want) <= 0.02*want) {
+					return fmt.Sprintf("VIOLATION cell: %dx%d grid, cell (row %d, col %d): squared height %g, the one sphere of the disc gives %g", hm.Rows, hm.Cols, row, col, got, want)
+				}
+			}
+		}
+		return "ok"
+	}
+	register(scenario{name: fmt.Sprintf("heightmap-disc/procs%d/n%d/size%d/fill%g", procs, spheres, maxSize, maxRadius), procs: procs, prop: "C13",
+		randomized: true,
+		about: "HeightMap.AddSpheresSDF over a window inside a disc: the result is the closed-form single sphere for every worker count",
+		body:  run, want: func() string { return "ok" }})
+}
+
 // ---- read-only sharing of objects without synchronisation operations (race pass only) ----
 
 func raceReaders() {
@@ -374,6 +406,13 @@ func init() {
 	heightMapScenario(2, 3)
 	heightMapScenario(2, 4)
 	heightMapScenario(3, 4)
+	heightMapCircleScenario(1, 2, 3, 0)
+	heightMapCircleScenario(2, 2, 3, 0)   // 3x3 cells, 2 workers
+	heightMapCircleScenario(2, 3, 4, 0)   // 3x4 cells
+	heightMapCircleScenario(3, 3, 4, 0.5) // filled variant
+	heightMapCircleScenario(4, 4, 3, 0)   // 9 cells, 4 workers
+	heightMapCircleScenario(5, 5, 4, 0)   // 12 cells, 5 workers
+	heightMapCircleScenario(7, 7, 3, 0)   // fewer cells per worker than 2
 	rasterScenario(2, false)
 	rasterScenario(3, false)
 	rasterScenario(2, true)
